@@ -27,6 +27,9 @@ type tBatch struct {
 	Silent   []int   `json:"silent"`  // participants whose operators never answer this batch
 	Failing  []int   `json:"failing"` // participants who report a signing error instead of answering
 	Slow     []int   `json:"slow"`    // participants who answer only after a later batch has been proposed (or, for the last batch, at the very end)
+	// AgeDays > 0: the batch is proposed that many days after what happened before (all node processes are stopped
+	// meanwhile and restarted); a round stays usable for signing however old it is
+	AgeDays int `json:"age_days,omitempty"`
 }
 
 type tPlan struct {
@@ -247,6 +250,13 @@ func runSignTape(fx *world.Fixture, p tPlan, root string, stepCheck bool) *tObs 
 		case "poll":
 			pollOne(a.i)
 		case "propose":
+			if d := p.Batches[a.b].AgeDays; d > 0 {
+				if err := w.Age(time.Duration(d) * 24 * time.Hour); err != nil {
+					obs.Err = fmt.Errorf("restart after %d days: %w", d, err)
+					return
+				}
+				hist("%d days pass", d)
+			}
 			bz, _ := json.Marshal(sBatch{Proposer: a.i, Tasks: p.Batches[a.b].Tasks}.request(obs.BatchIDs[a.b], time.Now()))
 			w.PostSigned(a.i, fx.Round, "event_signing_start", bz, "")
 			nextBatch++
